@@ -65,7 +65,7 @@ TOL = 2e-4
 
 
 def plan(tier, seed):
-    return [["case", i] for i in range(N_CASES[tier])]
+    return [["probe", "downsample_upsample_odd"]] + [["case", i] for i in range(N_CASES[tier])]
 
 
 def mandatory(tier):
@@ -382,7 +382,7 @@ def apply_op(ctx, rng, subj: Subject, op, desc0, noise=None):
     res = None
     # NotImplementedError is an explicit "unsupported combination" (e.g. torch cannot replicate-pad the last two
     # dimensions of a 5-D tensor for a 2-D kernel on volumes): counted in the exceptions table, not a violation
-    with ctx.guard(f"{desc0['kind']}.{op}", key=f"exc/{op}/" + exc_class(op, pub), allow=(NotImplementedError,), **info):
+    with ctx.guard(f"{desc0['kind']}.{op}", key=f"exc/{op}/" + exc_class(op, pub, grids), allow=(NotImplementedError,), **info):
         res = call()
     if res is None:
         return None
@@ -419,8 +419,12 @@ def apply_op(ctx, rng, subj: Subject, op, desc0, noise=None):
     return Subject(res, subj.ramps, new_valid, subj.kind)
 
 
-def exc_class(op, desc):
-    r"""Mechanism key suffix for exceptions: the argument form that provokes it."""
+def exc_class(op, desc, grids=None):
+    r"""Mechanism key suffix for exceptions: the argument form / input state that provokes it."""
+    if op == "upsample" and grids is not None:
+        # grids keep a fractional internal size after halving an odd size; the tensor functions do not
+        frac = any(bool((g._size != g._size.round()).any()) for g in grids)
+        return "fractional-size" if frac else "integer-size"
     if op in ("conv1d", "convnd"):
         return f"{desc.get('kernel', '').split(' ')[0]}/padding={desc.get('padding')}"
     if op == "region_of_interest":
@@ -443,9 +447,28 @@ def replay_on(obj, op, desc):
     raise ValueError(op)
 
 
+def probe_down_up(ctx):
+    r"""Deterministic probe of a recorded finding: downsample of an odd-sized image followed by upsample."""
+    import torch
+    from deepali.core.grid import Grid
+    from deepali.data.image import ImageBatch
+
+    for size in ((5, 7), (9, 6, 5)):
+        for ac in (True, False):
+            g = Grid(size=size, align_corners=ac)
+            b = ImageBatch(torch.zeros((1, 1) + tuple(g.shape)), g)
+            d = b.downsample(1)
+            ctx.true("downsample_grid_matches_data", tuple(d.grid().shape) == tuple(d.shape[2:]), key="downsample/grid_shape", size=list(size))
+            with ctx.guard("ImageBatch.downsample.upsample", key="exc/upsample/fractional-size", size=list(size), align_corners=ac):
+                u = d.upsample(1)
+                ctx.true("upsample_grid_matches_data", tuple(u.grid().shape) == tuple(u.shape[2:]), key="exc/upsample/fractional-size", size=list(size))
+
+
 def run_item(ctx, item):
     import torch
 
+    if item[0] == "probe":
+        return probe_down_up(ctx)
     i = item[1]
     rng = ctx.rng()
     kind = ["ImageBatch", "ImageBatch", "Image", "FlowFields"][i % 4]
